@@ -446,6 +446,38 @@ def run(ctx, rep):
                           "a flush callback is invoked outside the flush worker: the caller thread cannot know whether earlier data was "
                           "successfully synced", where=where)
 
+    # ---------------- R04.10 a failed write is fatal for the worker ---------------------
+    rep.rule("R04.10", "after the Err edge of a write to a chunk file the worker sends no non-Err result to any callback any more (today: "
+                       "the error ends the worker thread): the file may hold a partial record and its cursor is past it, so a later "
+                       "'successful' flush would acknowledge bytes written behind a torn record")
+    wset = set(write_nodes)
+    wout = {n: call_outcome(P, n) for n in wset}
+
+    def step10(ms, pi, qi, learn):
+        for n, f in wout.items():
+            if f(pi, qi, learn) == "err":
+                ms = True
+        return ms
+    seen10 = run_monitor(P, False, step10)
+    bad10 = None
+    for (pi, ms) in seen10:
+        n = P.gnode(pi)
+        if ms and n in send_nodes:
+            a = event_args(g, n)
+            v = strip_ids(a[1]) if len(a) > 1 else None
+            tg = P.operand_tag(pi, g.term(n)["args"][1]) if len(g.term(n).get("args", [])) > 1 else None
+            if not ((tg and tg[0] == "Err") or (v and v[0] == "agg" and v[2] == "Err")):
+                bad10 = (pi, ms)
+                break
+    if bad10:
+        rep.violation("R04.10", "%s|ok-ack-after-failed-write" % ENT, "Callback::send after a failed write",
+                      "the worker keeps serving after write_all failed: a later flush can be acknowledged Ok although earlier journalled bytes "
+                      "never reached the file (and the acknowledged record sits behind a torn one, which recovery cuts off)",
+                      where=g.where(P.gnode(bad10[0])), path=describe_path(P, [k_[0] for k_ in path_to(seen10, bad10)]))
+    else:
+        rep.ok("R04.10", "failed write", "no callback is sent a non-Err value on any path after the Err edge of a chunk-file write (%d write site(s))"
+               % len(wset), where=g.where(sorted(wset)[0]) if wset else "")
+
     # ---------------- R04.7 (caller side) -----------------------------------------------
     r04_7(ctx, rep)
 
